@@ -295,9 +295,96 @@ def crash_point_sweep(res: Result, tier: str) -> dict[str, Any]:
             "sweep_distinct_outcomes": len(outcomes), "scenario_callbacks": base}
 
 
+def client_subscriber_sweep(res: Result, only: str | None = None) -> int:
+    """Subscribers registered through the APIClient (state, log, service-call, Bluetooth and voice-assistant handlers - the latter are
+    coroutines the client starts as tasks): a chunk that carries messages for them *and* the event that closes the connection.  No
+    handler may run once the connection reads closed - neither for frames behind the closing one nor for frames in front of it that
+    are delivered late."""
+    import itertools as _it
+
+    from ..world import ConnWorld, mk
+
+    pb = env.pb()
+    n = 0
+    closers = ("DR", "garbage", "eof-next", "force-in-callback")
+    for noise in (False, True):
+        for closer in closers:
+            for order in ("before", "after", "both"):
+                key = f"client-subscribers:{'noise' if noise else 'plain'}:{closer}:messages-{order}-the-close"
+                if only is not None and key != only:
+                    continue
+                w = ConnWorld(client=True, noise=noise, login=True)
+                late: list[str] = []
+                calls: list[str] = []
+                try:
+                    w.connect_fully()
+                    cl = w.client
+                    conn = cl._connection
+
+                    def seen(tag: str) -> None:
+                        calls.append(tag)
+                        c = cl._connection
+                        if c is None or c.connection_state.name == "CLOSED" or conn.connection_state.name == "CLOSED":
+                            late.append(tag)
+                        if closer == "force-in-callback" and tag == "state" and conn.connection_state.name == "CONNECTED":
+                            conn.force_disconnect()
+
+                    async def h_start(conversation_id: str, flags: int, audio_settings: Any, wake_word_phrase: Any) -> int:
+                        seen("va-start")
+                        return 6000
+
+                    async def h_stop(abort: bool) -> None:
+                        seen("va-stop")
+
+                    async def h_audio(data: bytes) -> None:
+                        seen("va-audio")
+
+                    async def h_ann(finished: Any) -> None:
+                        seen("va-announce")
+
+                    cl.subscribe_states(lambda st: seen("state"))
+                    cl.subscribe_logs(lambda m: seen("log"))
+                    cl.subscribe_service_calls(lambda m: seen("service"))
+                    cl.subscribe_bluetooth_connections_free(lambda a, b: seen("bt-free"))
+                    cl.subscribe_voice_assistant(handle_start=h_start, handle_stop=h_stop, handle_audio=h_audio, handle_announcement_finished=h_ann)
+                    w.drain()
+                    msgs = [mk("SensorStateResponse", key=1, state=1.0), mk("VoiceAssistantAudio", data=b"abc"),
+                            mk("VoiceAssistantRequest", start=True, conversation_id="c"), mk("SubscribeLogsResponse", level=3, message=b"m"),
+                            mk("VoiceAssistantAnnounceFinished", success=True), mk("HomeassistantServiceResponse", service="s.x"),
+                            mk("BluetoothConnectionsFreeResponse", free=1, limit=3), mk("VoiceAssistantAudio", data=b"def", end=True),
+                            mk("VoiceAssistantRequest", start=False)]
+                    body = b"".join(w.dframe(m) for m in msgs)
+                    if closer == "DR":
+                        close_bytes = w.dframe(mk("DisconnectRequest"))
+                    elif closer == "garbage":
+                        close_bytes = b"\x7f\x7f\x7f" if not noise else b"\x00\x00\x01x"
+                    else:
+                        close_bytes = b""
+                    tail = b"".join(w.dframe(m) for m in msgs) if order in ("after", "both") and close_bytes and closer != "garbage" else b""
+                    head = body if order in ("before", "both") or not close_bytes else b""
+                    w.io_chunk(w.sock, head + close_bytes + tail)
+                    if closer == "eof-next":
+                        w.step()
+                        if w.sock is not None and not w.sock.closed:
+                            w.io_eof(w.sock)
+                    w.drain()
+                    w.run_timers(w.loop.time() + 5.0)
+                    n += 1
+                    if conn.connection_state.name != "CLOSED":
+                        raise HarnessError(f"{key}: the scenario did not close the connection")
+                    if late:
+                        res.add(key, f"C08:delivered-after-close:handlers {late} ran when the connection already read closed (all handler calls: {calls})",
+                                {"harness": "c08-client", "key": key})
+                finally:
+                    w.close()
+    del _it, pb
+    return n
+
+
 def run(tier: str, seed: int) -> Result:
     res = Result("C08", "fault_enumeration")
     sweep = crash_point_sweep(res, tier)
+    sweep["client_subscriber_runs"] = client_subscriber_sweep(res)
     total = Stats()
     cfgs = []
     for s in ("connecting", "opened", "hello_sent", "connected", "req_pending", "disc_pending", "pong_due"):
@@ -347,6 +434,11 @@ def run(tier: str, seed: int) -> Result:
 
 def replay(rp: dict[str, Any]) -> bool:
     d = rp["detail"]
+    if d.get("harness") == "c08-client":
+        r = Result("C08", "fault_enumeration")
+        client_subscriber_sweep(r, only=d["key"])
+        print(d["key"], "->", [v.clause for v in r.violations] or "holds")
+        return not r.violations
     if d.get("harness") == "c08-sweep":
         o = run_injected(d["scenario"], tuple((int(k), c) for k, c in d["inject"]))
         for line in o["log"] or []:
